@@ -95,6 +95,16 @@ instance (w : World) : Decidable (Initial w) :=
       w.clkLinks = [] ∧ w.clkRunning = false ∧ w.clkSrc = none)
     ⟨fun ⟨a, b, c, d⟩ => ⟨a, b, c, d⟩, fun ⟨a, b, c, d⟩ => ⟨a, b, c, d⟩⟩
 
+/-- consistency of power state and clock distribution -/
+structure ClockInv (w : World) : Prop where
+  /-- the clock links are exactly the running clock owners -/
+  links_iff : ∀ i : Nat, i ∈ w.clkLinks ↔ ∃ t ∈ w.trxs[i]?, t.hasClock = true ∧ t.running = true
+  links_nodup : w.clkLinks.Nodup
+  /-- the shared generator runs iff there is a link -/
+  runs_iff : w.clkRunning = true ↔ w.clkLinks ≠ []
+  /-- `clck_src` exists while the generator runs -/
+  src : w.clkRunning = true → w.clkSrc.isSome = true
+
 /-- a world reachable from a built one by some history -/
 def Reachable (w : World) : Prop :=
   ∃ seed extra w0 ops, build seed extra = .ok w0 ∧ (run w0 ops).1 = w
